@@ -24,10 +24,35 @@ def _init():
     sys.setrecursionlimit(100000)
 
 
+class TaskTimeout(Exception):
+    pass
+
+
+def _alarm(_sig, _frm):
+    raise TaskTimeout()
+
+
+# generous wall-clock guard per task (tasks normally take seconds): a task that exceeds it is a
+# harness defect (e.g. a model that diverges without using fuel) and makes the run a broken check,
+# loudly, instead of hanging for ever; it is never a verdict
+TASK_TIMEOUT = int(os.environ.get("VERIF_TASK_TIMEOUT", "3600"))
+
+
 def _call(args):
     f, task = args
     try:
-        return ("ok", f(task))
+        import threading
+        guarded = threading.current_thread() is threading.main_thread()
+        if guarded:
+            signal.signal(signal.SIGALRM, _alarm)
+            signal.alarm(TASK_TIMEOUT)
+        try:
+            return ("ok", f(task))
+        finally:
+            if guarded:
+                signal.alarm(0)
+    except TaskTimeout:
+        return ("exc", "task exceeded VERIF_TASK_TIMEOUT=%ds: %r\n%s" % (TASK_TIMEOUT, str(task)[:300], traceback.format_exc()))
     except Exception:
         return ("exc", traceback.format_exc())
 
@@ -45,7 +70,8 @@ def pmap(f, tasks, jobs=16):
             kind, r = _call((f, t))
             if kind == "exc":
                 sys.stderr.write(r)
-                raise SystemExit("HARNESS BUG in worker (broken check, not a verdict)")
+                sys.stderr.write("HARNESS BUG in worker (broken check, not a verdict)\n")
+                raise SystemExit(2)
             yield r
         return
     ctx = mp.get_context("fork")
@@ -54,5 +80,6 @@ def pmap(f, tasks, jobs=16):
             if kind == "exc":
                 sys.stderr.write(r)
                 pool.terminate()
-                raise SystemExit("HARNESS BUG in worker (broken check, not a verdict)")
+                sys.stderr.write("HARNESS BUG in worker (broken check, not a verdict)\n")
+                raise SystemExit(2)
             yield r
